@@ -859,6 +859,8 @@ class CallMixin:
             # datetime covers years 1..9999: a wire value is inside that range only when it is visibly bounded
             if not epoch_bounded(a0):
                 ex = ['builtins.ValueError', 'builtins.OverflowError', 'builtins.OSError']
+        if d == 'six.indexbytes' and len(args) == 2 and ('#index %s of %s' % (show(args[1]), show(a0))) in fr.nonempty:
+            ex = None           # an enclosing ``offset < len(buffer)`` (if / and) established that the octet exists
         if ex and not all(is_const(a) for a in args):
             self.risk(fr, 'ext:' + d, tuple(ex), a0, node)
         if d.split('.')[-1] in external_table()['methods'] and '.' in d and ex is None:
